@@ -115,17 +115,27 @@ class Spec:
         data = case["data"]
         if self.kind == "batch":
             np.random.seed(seed_of(case, case.get("_ref_step", -1)))
-            det.set_reference(np.array(data[0], dtype=float))
+            ref = np.array(data[0], dtype=float)
+            det.set_reference(ref)
+            if case.get("reuse_buffer"):
+                ref[...] = 12345.678          # the caller overwrites its reference array after handing it over
             return det, data[1:]
         return det, data
 
-    def feed(self, det, item):
+    def feed(self, det, item, buffers=None):
+        """buffers: dict shared over a run; when given, X is handed over in ONE reused ndarray per shape that
+        is poisoned right after the call (a caller re-using its batch buffer must not change anything)"""
         if self.inputs == "y":
             det.update(item[0], item[1])
-        elif self.kind == "batch":
-            det.update(np.array(item, dtype=float))
-        else:
-            det.update(item)
+            return
+        x = np.array(item, dtype=float)
+        if buffers is None:
+            det.update(x if self.kind == "batch" else item)
+            return
+        buf = buffers.setdefault(x.shape, np.empty(x.shape, dtype=float))
+        buf[...] = x
+        det.update(buf)
+        buf[...] = 12345.678
 
     def observe(self, det):
         ds, tot, sin = lifecycle_obs(det)
@@ -143,12 +153,13 @@ class Spec:
         off = case.get("_offset", 0)
         setref = case.get("_set_reference_at")        # explicit set_reference(data item) instead of update, batch only
         rows = [dict(self.observe(det), step=-1)] if self.kind == "batch" else []
+        buffers = {} if case.get("reuse_buffer") else None
         for i, item in enumerate(data):
             np.random.seed(seed_of(case, i + off))
             if setref is not None and i == setref:
                 det.set_reference(np.array(item, dtype=float))
             else:
-                self.feed(det, item)
+                self.feed(det, item, buffers)
             rows.append(self.observe(det))
         return rows
 
@@ -436,4 +447,6 @@ SPECS = {s.name: s for s in [DDMSpec(), EDDMSpec(), STEPDSpec(), LFRSpec(), ADWI
 def gen_case(ctx, name, k):
     c = SPECS[name].gen(ctx)
     c["det"], c["seed"] = name, (ctx.seed + 31 * k) % 100000
+    if SPECS[name].inputs == "x" and name != "MD3" and ctx.rng.random() < 0.35:
+        c["reuse_buffer"] = True       # the caller re-uses (and overwrites) one array object for every call
     return c
